@@ -126,3 +126,19 @@ Proof.
   - repeat constructor.
 Qed.
 Print Assumptions C03_document_example.
+
+(* Document, any interleaving of API calls and deliveries of remote operations: given what the surrounding machinery
+   guarantees at each step ([step_ok]: a local call is stamped newer than everything in the tree — the Lamport clause
+   of C15 —, a delivered operation is new to the tree — exactly-once delivery, C05/C07 —, values are canonical), every
+   step keeps the tree well-formed with pairwise distinct creation timestamps and a live root, and every API call
+   along the way acts on the readable value as the plain JSON operation *)
+Theorem C03_document_step : forall s st s',
+  SInv s -> live_root s -> step_ok s st -> do_step s st = Some s' ->
+  SInv s' /\ live_root s' /\
+  match st with SLocal c _ => jview s' = plain_call c (jview s) | SRemote _ => True end.
+Proof. exact step_keeps_structure. Qed.
+Print Assumptions C03_document_step.
+Theorem C03_document_any_interleaving : forall sts s s',
+  SInv s -> live_root s -> steps_ok s sts -> run_steps s sts = Some s' -> SInv s' /\ live_root s'.
+Proof. exact steps_keep_structure. Qed.
+Print Assumptions C03_document_any_interleaving.
